@@ -9,7 +9,7 @@ from .env import Fxp, to_float, is_exact_float, flat, exact, codes_of, tok_exact
 INT_DTYPES = ('int8', 'int16', 'int32', 'int64', 'uint8', 'uint16', 'uint32', 'uint64')
 FLOAT_DTYPES = ('float16', 'float32', 'float64', 'longdouble')
 SCALAR_CARRIERS = ('pyint', 'pyfloat', 'decstr', 'decimal', 'npstr', 'arr0d', 'fxp') + tuple('np.' + d for d in INT_DTYPES + FLOAT_DTYPES)
-ARRAY_CARRIERS = ('list', 'listf', 'listnp', 'tuple', 'nested', 'strlist', 'strarr', 'arr.fxp', 'arr2.fxp') + tuple('arr.' + d for d in INT_DTYPES + FLOAT_DTYPES) + tuple('arr2.' + d for d in ('int64', 'float64', 'float32', 'int16'))
+ARRAY_CARRIERS = ('list', 'listf', 'listnp', 'tuple', 'nested', 'strlist', 'strarr', 'declist', 'arr.fxp', 'arr2.fxp') + tuple('arr.' + d for d in INT_DTYPES + FLOAT_DTYPES) + tuple('arr2.' + d for d in ('int64', 'float64', 'float32', 'int16'))
 ROUTES = ('ctor', 'call', 'setval', 'setitem', 'tmpl', 'tmplkw')
 
 
@@ -117,6 +117,8 @@ def ok_for(carrier, vals):
         return all(is_exact_float(v) for v in vals)
     if carrier == 'listnp':
         return all(v.denominator == 1 and abs(v) < 2 ** 31 for v in vals) or all(_fits_float_dtype(v, 'float32') for v in vals)
+    if carrier == 'declist':
+        return all(ok_for('decimal', [v]) for v in vals)
     if carrier in ('strlist', 'strarr'):
         return all(is_exact_float(v) and v.denominator.bit_length() <= 80 for v in vals)
     if carrier == 'npstr':
@@ -210,6 +212,10 @@ def build(carrier, vals):
         assert n % 2 == 0
         h = n // 2
         return [[_py(v) for v in vals[:h]], [_py(v) for v in vals[h:]]], (2, h)
+    if carrier == 'declist':
+        import decimal
+        ds = [decimal.Decimal(dec_string(v)) for v in vals]
+        return (ds if n % 2 else tuple(ds)), (n,)          # a list / tuple of decimal.Decimal (D84)
     if carrier == 'strlist':
         return [dec_string(v) for v in vals], (n,)
     if carrier == 'strarr':
